@@ -95,7 +95,7 @@ func drawLimits(rt *rapid.T, generous bool) limits {
 // TestAmplification: few requests, rich address lists and client behaviours.
 func TestAmplification(t *testing.T) {
 	name := t.Name()
-	hx.Check(t, 24000, 640000, 0, func(rt *rapid.T) {
+	hx.Check(t, 14000, 640000, 0, func(rt *rapid.T) {
 		sc := &scenario{}
 		sc.Limits = drawLimits(rt, rapid.IntRange(0, 5).Draw(rt, "tight") != 0)
 		sc.Mask = drawMask(rt)
@@ -122,7 +122,7 @@ func TestAmplification(t *testing.T) {
 // TestRateLimits: arrival patterns against small limits.
 func TestRateLimits(t *testing.T) {
 	name := t.Name()
-	hx.Check(t, 12000, 320000, 0, func(rt *rapid.T) {
+	hx.Check(t, 7000, 320000, 0, func(rt *rapid.T) {
 		sc := &scenario{}
 		sc.Limits = drawLimits(rt, false)
 		sc.Mask = drawMask(rt)
